@@ -170,11 +170,19 @@ class Visitor(_BaseVisitor[T], abc.ABC):
     for v in self.extensions.before_visit + self.extensions.inner_visit:
       v.depart(ob)
     
+    pruning = None
     if not extensions_only:
-      super().depart(ob)
+      try:
+        super().depart(ob)
+      except self._TreePruningException as ex:
+        # The extensions that entered the node leave it, whatever the main visitor prunes.
+        pruning = ex
 
     for v in self.extensions.after_visit + self.extensions.outter_visit:
       v.depart(ob)
+
+    if pruning:
+      raise pruning
 
   def walkabout(self, ob: T) -> None:
     """
@@ -219,7 +227,12 @@ class Visitor(_BaseVisitor[T], abc.ABC):
           pass
     except self.SkipChildren:
       pass
-    self.depart(ob, extensions_only=not call_depart)
+    try:
+      self.depart(ob, extensions_only=not call_depart)
+    except self.SkipSiblings:
+      skip_siblings = True
+    except self._TreePruningException:
+      pass # not applicable once the node has been left; ignore
     return skip_siblings
 
 # Adapted from https://github.com/pawamoy/griffe
